@@ -171,6 +171,7 @@ def check(rep, an, tier):
                 "neutral_point": "neutral_point", "delta_norm1": "delta_norm1", "delta_radius": "delta_radius",
                 "adaptive_objective": "adaptive_objective", "scale_w": "scale_w"})
     F.solve_kwargs(rep, res, "ReceptorEstimator.fit_adaptive")
+    F.wrapper_returns_solution(rep, res, "ReceptorEstimator.fit_adaptive", {"lsq_linear_adaptive"}, ("X", "scales", "B"))
     rep.require("R-FLOW", 40)
     rep.require("R-DISPATCH", 20)
     rep.require("R-API", 5)
